@@ -2,6 +2,7 @@
 From Coq Require Import ZArith List Bool.
 From BV Require Import Lib.Cases Model.LaxSem Model.Restart Model.Pool
      Proofs.PoolJobs Proofs.PoolInv Proofs.PoolTick Proofs.PoolSup Proofs.PoolIdx.
+From BV Require Gen.G_pool_shape.
 Import ListNotations.
 Open Scope Z_scope.
 
@@ -40,6 +41,15 @@ Theorem C09_recycle_harmless : forall s x,
     lost_due s x = false -> acked_by_gone (reaped s) (kept s) x = None -> tick_job s x = x.
 Proof. exact tick_frame. Qed.
 Print Assumptions C09_recycle_harmless.
+
+(* shrink never picks a worker already being stopped and always flags its victim
+   (facts computed from the AST of /repo/billiard/pool.py on this run; see translate/kernels/poolshape.py) *)
+Theorem C09_code_shape :
+  G_pool_shape.shrink_skips_stopping_workers = true /\
+  G_pool_shape.shrink_always_flags_victim = true /\
+  G_pool_shape.terminate_job_flags_worker = true.
+Proof. repeat split; reflexivity. Qed.
+Print Assumptions C09_code_shape.
 
 (* non-vacuity: pool of 3; two workers exit (recycle + crash), grow(1), shrink(1): after
    each pass the list has the configured size and the indices are distinct *)
